@@ -29,6 +29,29 @@ def run(ctx, args):
     fails, r = ctx.validate("Trace_Affinity", "Trace_Affinity.cfg", trace)
     for f in fails:
         f["trace"] = trace
+    # the transport table itself (TransTable family): design facts by TLC, then model conformance of the real table
+    ctx.model_check("MC_TransTable", "MC_TransTableq.cfg" if q else "MC_TransTable.cfg", timeout=1500)      # SweptClean, InOnlyPrimary, Connected, LeakStable, LiveKept
+    for w in ("Orphan", "UdpChurn", "Leak"):
+        ctx.model_check("MC_TransTable", "MC_TransTableReach_%s.cfg" % w, expect_violation="Reach_" + w)
+    tbeh = os.path.join(ctx.scratch, "transtable_behaviours.ndjson")
+    ctx.emit("MC_TransTableSim", "MC_TransTableSim.cfg", tbeh, simulate="num=%d" % (150 if q else 3000), depth=16, workers=1)
+    ttrace = os.path.join(ctx.scratch, "transtable_trace.ndjson")
+    rc, out = ctx.run_driver("TestVfTransTable", env={"VERIF_IN": tbeh, "VERIF_TRACE": ttrace, "VERIF_MAXBEH": 150 if q else 3000}, timeout=1800, allow_fail=True)
+    if rc != 0:
+        crash_or_infra(ctx, "C12", out)
+        return
+    m2 = re.search(r"VF cases=(\d+) events=(\d+)", out)
+    if not m2:
+        raise Infra("transport-table driver printed no summary:\n" + out[-2000:])
+    tfails, tr = ctx.validate("Trace_TransTable", "Trace_TransTable.cfg", ttrace)
+    for f in tfails:
+        f["trace"] = ttrace
+    fails += tfails
+    ctx.traces += int(m2.group(1))
+    ctx.extra["transport_table_histories"] = int(m2.group(1))
+    ctx.extra["transport_table_model_deviations"] = len(tr["warns"])
+    for w in tr["warns"][:5]:
+        print("NOTE: model deviation (the listed property is judged by where the responses go): line %s case %s %s" % (w["line"], w["case"], w["what"]))
     ctx.evaluations = ctx.traces
     ctx.distinct = ctx.traces
     ctx.rule = ("interleavings of requests and responses over 3 connections x 5 transactions sampled by TLC from MC_Affinity (%d behaviours; equal and different sent-by) and random runs with "
